@@ -900,6 +900,28 @@ pub fn op_parse(args: &[Sexp]) -> String {
     let txt = match text_arg(args.get(0)) { Some(t) => t, None => return "bad-op".into() };
     match lef21::verif_hooks::parse_str(&txt) { Ok(lb) => format!("ok {}", lib_s(&lb)), Err(_) => "err".into() }
 }
+/// `lef.open x<text>`: the same text through a FILE — `LefLibrary::open(path)` — printed like `lef.parse`
+pub fn op_open(args: &[Sexp]) -> String {
+    let txt = match text_arg(args.get(0)) { Some(t) => t, None => return "bad-op".into() };
+    let path = std::env::temp_dir().join(format!("l21h-open-{}.lef", std::process::id()));
+    if std::fs::write(&path, txt.as_bytes()).is_err() { return "bad-op".into(); }
+    let r = LefLibrary::open(&path);
+    let _ = std::fs::remove_file(&path);
+    match r { Ok(lb) => format!("ok {}", lib_s(&lb)), Err(_) => "err".into() }
+}
+/// `lef.wfail <libseed>`: a generated library made UNWRITABLE after some of its text (a 5.4-only MACRO SOURCE
+/// statement in a 5.8 library): `to_string` must refuse it — and leave nothing behind for the next call
+pub fn op_wfail(args: &[Sexp]) -> String {
+    let seed = match args.get(0).and_then(|a| a.int()) { Some(s) => s as u64, None => return "bad-op".into() };
+    let mut lib = gen_lib(seed);
+    lib.version = Some(D::new(58, 1));
+    lib.names_case_sensitive = None;
+    let mut m = LefMacro::default();
+    m.name = "legacy".into();
+    m.source = Some(LefDefSource::User);
+    lib.macros.push(m);
+    match lib.to_string() { Ok(_) => "ok written".into(), Err(_) => "err".into() }
+}
 fn first_diff(a: &LefLibrary, b: &LefLibrary) -> String {
     let (ja, jb) = (serde_json::to_string(a).unwrap_or_default(), serde_json::to_string(b).unwrap_or_default());
     if ja == jb { return "(differs only in a field the JSON view does not show: fixed_mask)".into(); }
@@ -1014,6 +1036,11 @@ pub fn oracle_c04(line: &str) -> String {
             }
             other => format!("fail {}", other),
         },
+        "lef.open" => {
+            // reading a file gives what reading its text gives
+            let direct = op_parse(&p[1..]);
+            if res == direct { "pass".into() } else { format!("fail LefLibrary::open of a file differs from reading its text: {} vs {}", &res[..res.len().min(60)], &direct[..direct.len().min(60)]) }
+        }
         "lef.lex" | "lef.enum" | "lef.dbu" | "lef.parse" | "lef.wtokens" => if res == "panic" { "fail panic".into() } else { "pass".into() },
         _ => "na".into(),
     }
@@ -1039,6 +1066,7 @@ pub fn oracle_c05(line: &str) -> String {
             }
             other => format!("fail {}", other),
         },
+        "lef.wfail" => if res == "err" { "pass".into() } else { "na".into() },
         "lef.lex" | "lef.parse" | "lef.wtokens" => if res == "panic" { "fail panic".into() } else { "pass".into() },
         _ => "na".into(),
     }
@@ -1088,6 +1116,13 @@ pub fn gen_c04(thorough: bool, rng: &mut Rng, out: &mut Vec<String>) {
             let styleseed = if j == 0 { (i as u64) % 144 } else { rng.below(1 << 40) };
             let txt = render(&lib, styleseed);
             out.push(format!("lef.read {} {}", libseed, text_hex(&txt)));
+            if (i + j) % 6 == 0 {
+                // through a file: first a text the reader rejects (cut after a statement, 5.5+ so END LIBRARY is missed,
+                // or with a stray word), then the good one — a rejected file must leave nothing behind
+                let cut = txt.char_indices().nth(txt.chars().count() * 2 / 3).map(|(k, _)| k).unwrap_or(txt.len());
+                out.push(format!("lef.open {}", text_hex(&format!("{} MACRO half_written CLASS CORE ;", &txt[..cut]))));
+                out.push(format!("lef.open {}", text_hex(&txt)));
+            }
             out.push(format!("lef.parse {}", text_hex(&txt)));
             if (i + j) % 5 == 0 { out.push(format!("lef.lex {}", text_hex(&txt))); }
         }
@@ -1132,6 +1167,8 @@ pub fn gen_c05(thorough: bool, rng: &mut Rng, out: &mut Vec<String>) {
         let mut lib = gen_lib(libseed);
         if i % 16 == 5 { lengthen(&mut lib, rng); }
         let txt = render(&lib, if i % 2 == 0 { 0 } else { rng.below(1 << 40) });
+        // every fifth library is written right after a library the writer refuses half-way
+        if i % 5 == 2 { out.push(format!("lef.wfail {}", LIBSEED_V2 + rng.next() % 1_000_000_007)); }
         out.push(format!("lef.wr {}", text_hex(&txt)));
         out.push(format!("lef.wtokens {}", text_hex(&txt)));
         if i % 10 == 0 {
